@@ -38,7 +38,8 @@ pub struct Scenario {
     pub fsize_limit: Option<u64>,
     pub hash_seed: u64,
     /// an earlier call of the same writer on the same caller thread that fails: "is-directory",
-    /// "missing-dir", "write-enospc" (state a failed call leaves behind must not reach this one)
+    /// "missing-dir", "write-enospc" (another path), "same-path-enospc" (this very output) - state
+    /// a failed call leaves behind must not reach this one
     #[serde(default)]
     pub prior_failed_call: Option<String>,
     /// an earlier *successful* call of the same writer on the same caller thread with the same
@@ -383,7 +384,7 @@ pub fn scenario_shape(tier: &str, base_seed: u64, g: u64) -> Scenario {
         } else {
             None
         },
-        prior_failed_call: if matches!(config, "free" | "cap") && r.chance(1, 2) { Some(["is-directory", "missing-dir", "write-enospc"][r.usize(3)].to_string()) } else { None },
+        prior_failed_call: if matches!(config, "free" | "cap") && r.chance(1, 2) { Some(["is-directory", "missing-dir", "write-enospc", "same-path-enospc", "same-path-enospc"][r.usize(5)].to_string()) } else { None },
         prior_ok_patched: false,
         knob: None,
         config: config.into(),
@@ -391,12 +392,16 @@ pub fn scenario_shape(tier: &str, base_seed: u64, g: u64) -> Scenario {
             let raw = raw_byte_char([0xE4u8, 0xFF, 0x80, 0xC3][r.usize(4)]);
             [
                 "out/image".to_string(),
+                // through a symbolic link to a directory and "..": the kernel leaves the link's
+                // target (out/deep/er), a writer that tidies the path textually ends up in out/links
+                "out/links/L/../image.hex".to_string(),
+                "out/links/L/../image.hex".to_string(),
                 "out/fw v1.2.hex".to_string(),
                 "out/.hex".to_string(),
                 format!("out/Ger{}t.hex", raw),
                 format!("out/d{}r/image.eep.hex", raw),
                 format!("out/{}", raw),
-            ][r.usize(6)]
+            ][r.usize(8)]
             .clone()
         } else {
             OUT_REL.to_string()
@@ -468,6 +473,11 @@ pub fn execute(sc: &Scenario, scratch: &Scratch, budget: u64) -> Result<RunOut, 
     };
     scratch.clear();
     std::fs::create_dir_all(scratch.path("out")).map_err(|e| e.to_string())?;
+    if sc.out_rel.contains("/links/L/../") {
+        std::fs::create_dir_all(scratch.path("out/deep/er/q")).map_err(|e| e.to_string())?;
+        std::fs::create_dir_all(scratch.path("out/links")).map_err(|e| e.to_string())?;
+        std::os::unix::fs::symlink(scratch.path("out/deep/er/q"), scratch.path("out/links/L")).map_err(|e| format!("symlink: {}", e))?;
+    }
     let out_path: PathBuf = scratch.path("").join(pb(&sc.out_rel));
     if let Some(d) = out_path.parent() {
         if !sc.missing_parent {
@@ -549,6 +559,12 @@ pub fn execute(sc: &Scenario, scratch: &Scratch, budget: u64) -> Result<RunOut, 
                     scratch.path("out/adir")
                 }
                 "missing-dir" => scratch.path("out/nodir/first.hex"),
+                // the earlier call goes to the *same* output and dies on its first write: whatever
+                // it leaves there or next to it (half a file, a marker) must not stop the next one
+                "same-path-enospc" => {
+                    st.rules.push(crate::simlibc::Rule::new(Call::Write, &lossy(&sc.out_rel), 0, crate::simlibc::Action::Errno(libc::ENOSPC)));
+                    out_path.clone()
+                }
                 _ => {
                     st.rules.push(crate::simlibc::Rule::new(Call::Write, "out/first.hex", 0, crate::simlibc::Action::Errno(libc::ENOSPC)));
                     scratch.path("out/first.hex")
@@ -1046,6 +1062,7 @@ pub fn worker(cfg: &WorkerCfg, emit: &mut dyn FnMut(Violation)) -> Stats {
         stats.probe("tmpdir_is_the_output_directory", sc.tmpdir_is_outdir);
         stats.probe("output_name_that_is_not_utf8", has_raw(&sc.out_rel));
         stats.probe("fault_fired_on_an_output_whose_name_is_not_utf8", has_raw(&sc.out_rel) && any_fired);
+        stats.probe("output_path_through_a_directory_link_and_dotdot", sc.out_rel.contains("/links/L/../"));
         stats.probe("output_name_without_extension_or_with_inner_dots", sc.out_rel != OUT_REL && !has_raw(&sc.out_rel));
         stats.probe("largest_flash_image", sc.len == MAX_FLASH);
         stats.probe("call_after_a_failed_call_on_the_same_thread", sc.prior_failed_call.is_some());
